@@ -64,6 +64,8 @@ def case_st(draw):
         "logfile": draw(st.sampled_from([True, True, False])), "trajectory": draw(st.sampled_from([True, True, False])),
         # create the generators of consecutive irun segments first and exhaust them afterwards
         "deferred_irun": draw(st.sampled_from([False, False, True])),
+        # the (public) interval of one recording observer is re-tuned before a later run call
+        "retune": draw(st.one_of(st.none(), st.tuples(st.integers(1, 4), st.integers(0, 3), st.sampled_from([1, 2, 3, 4])))),
     }
 
 
@@ -170,9 +172,16 @@ def run_case(case):
             mc, atoms, log, traj, recs = build(case)
             plan = list(zip(case["entry"], case["segments"]))
             i = 0
+            retune = case.get("retune") if not case.get("deferred_irun") else None
+            retuned = None  # (observer index, step at which the new interval took over, old interval, new interval)
             while i < len(plan):
                 how, k = plan[i]
                 before = mc.step_count
+                if retune and i == retune[0] and i >= 1 and retuned is None and recs[retune[1] % len(recs)].interval > 0 and before > 0:
+                    j = retune[1] % len(recs)
+                    retuned = (j, before, recs[j].interval, int(retune[2]))
+                    recs[j].interval = int(retune[2])
+                    labels.append("observer-interval-retuned-between-calls")
                 if case.get("deferred_irun") and how == "irun" and i + 1 < len(plan) and plan[i + 1][0] == "irun":
                     labels.append("deferred-irun-pair")
                     k2 = plan[i + 1][1]
@@ -204,8 +213,11 @@ def run_case(case):
         return out
 
     # (i) schedule model
-    for r, iv in zip(recs, case["intervals"]):
+    for j, (r, iv) in enumerate(zip(recs, case["intervals"])):
         exp = expected_calls(iv, n)
+        if retuned is not None and retuned[0] == j:
+            _j, at, old, new = retuned
+            exp = [s for s in range(0, at + 1) if s % old == 0] + [s for s in range(at + 1, n + 1) if s % new == 0]
         if r.calls != exp:
             return viol("observer-schedule" + (":leading-zero" if lead0 else ""), f"observer with interval {iv} was called at steps {r.calls}, model says {exp}")
     text = log.getvalue()
@@ -238,7 +250,9 @@ def run_case(case):
         return viol("split-log", "log text differs from the unsplit run(n)")
     if traj.getvalue() != rtraj.getvalue():
         return viol("split-trajectory-file", "trajectory text differs from the unsplit run(n)")
-    for r, rr, iv in zip(recs, rrecs, case["intervals"]):
+    for j, (r, rr, iv) in enumerate(zip(recs, rrecs, case["intervals"])):
+        if retuned is not None and retuned[0] == j:
+            continue  # the unsplit reference run cannot re-tune in the middle
         if r.calls != rr.calls:
             return viol("split-observer-calls", f"observer interval {iv}: calls {r.calls} vs {rr.calls} in the unsplit run")
     return out
